@@ -891,6 +891,18 @@ def _candidates(enc, prob, case):
     elif enc in ("integer", "imate"): vals = [0, 1, 2] if n <= 6 else [0, 1]
     else: vals = [0.0, 0.25, 0.5, 1.0] if n <= 5 else [0.0, 0.5, 1.0]
     out = []
+    dt = float if enc in REAL_LIKE else "int64"
+    if len(vals) ** n > 50000:
+        # too many vectors to enumerate (one entry per candidate cross): a seeded sample of 1200 distinct non-zero vectors,
+        # unit vectors first (so that a one-objective optimum over single crosses is present)
+        r = _pyrandom.Random(case["draw"]["seed"]); seen = set()
+        for i in range(n):
+            t = tuple(vals[-1] if j == i else vals[0] for j in range(n)); seen.add(t); out.append(numpy.array(t, dtype=dt))
+        while len(out) < 1200:
+            t = tuple(r.choice(vals) for _ in range(n))
+            if sum(t) <= 0 or t in seen: continue
+            seen.add(t); out.append(numpy.array(t, dtype=dt))
+        return out
     for t in itertools.product(vals, repeat=n):
         if sum(t) <= 0: continue
         out.append(numpy.array(t, dtype=float if enc in REAL_LIKE else "int64"))
